@@ -35,6 +35,15 @@ class HostList(list):
     """a host container that is a list without being exactly `list`"""
 
 
+class HashList(list):
+    """a mutable host container that is hashable (identity hash): hashable does not mean immutable"""
+    __hash__ = object.__hash__
+
+
+class HashDict(dict):
+    __hash__ = object.__hash__
+
+
 def hostnames():
     inner = [D(1), D(2)]
     hl = [inner, [D(3)], {'k': [D(4)]}]
@@ -47,20 +56,21 @@ def hostnames():
     for _ in range(700):
         deep = [deep]            # nested deeper than copy.deepcopy can recurse: binding it may fail, it may not silently become a shared reference
     more = {'hod': collections.OrderedDict([('k', [D(1), [D(2)]]), ('j', {'z': [D(3)]})]), 'hdd': collections.defaultdict(list, {'k': [D(4), [D(5)]]}),
-            'hsl': HostList([[D(6)], [D(7), [D(8)]]]), 'hdeep': deep}
+            'hsl': HostList([[D(6)], [D(7), [D(8)]]]), 'hdeep': deep, 'hhl': HashList([[D(1)], D(2)]), 'hhd': HashDict({'k': [D(3)], 'n': D(4)})}
     return {**more, 'hl': hl, 'hd': hd, 'ht': ht, 'hw': hw, 'hwl': [hl[0], threading.Lock()], 'el': [], 'ed': {}, 'hm': lambda f, n: [f(i) for i in range(int(n))], 'hid': lambda v: v, 'num': D(3), 's': 'txt'}
 
 
-LISTS = ['hl', 'hl[0]', 'hd["k"]', 'a', 'b', 'c', 'el', 'hsl', 'hod["k"]', 'hdd["k"]']
-DICTS = ['hd', 'hd["j"]', 'hl[2]', 'da', 'ed', 'hod', 'hdd']
+LISTS = ['hl', 'hl[0]', 'hd["k"]', 'a', 'b', 'c', 'el', 'hsl', 'hod["k"]', 'hdd["k"]', 'hhl']
+DICTS = ['hd', 'hd["j"]', 'hl[2]', 'da', 'ed', 'hod', 'hdd', 'hhd']
 RHS = ['hl', 'hd', 'ht', 'hl[0]', 'hd["k"]', 'hd["j"]', 'hl[2]', 'a', 'b', 'c', 'da', '[hl, hl]', '[a, hl[0]]', '{"q": hl}', '{"q": hd["k"], "r": a}', 'items(hd)', 'enumerate(hl)',
        'values(hd)', 'keys(hd)', 'sorted(hl, v => str(v))', 'map(hl, v => v)', 'filter(hl, v => True)', 'get(hd, "k")', 'get(hd, "zz", hl)', 'reversed(hl)', 'hl + [hl[0]]',
        'hl[0:2]', 'hl[::-1]', 'hid(hl)', 'hm(v => hl[0], 2)', 'hid(hd)["k"]', 'ht[0]', 'ht[1][1]', 'max(hl[0], hl[1])', 'hl[0] if True else a', 'a and hl', 'el or hl', 'num', 's',
        'hl - [hl[1]]', 'hl - el', 'hl * 1', 'a - b', '(hl + hl) - [hl[0]]', 'hl / 1', 'hl ** 1', '-hl', 'hl - hl[1:]', 'hl[0] - [1]',
        'hw', 'hw["rows"]', 'hwl', '[hw, hl]', 'hid(hw)',
+       'hhl', 'hhd', '[hhl, hhd]', 'hhl[0]', 'hhd["k"]', 'hid(hhl)', '{"q": hhl}',
        'hod', 'hdd', 'hsl', 'hod["k"]', 'hdd["k"]', 'hsl[0]', '[hod, hsl]', '{"q": hdd}', 'hid(hsl)', 'hdeep', 'hdeep[0]', '[hdeep[0][0]]', 'values(hod)', 'items(hdd)',
        '[[1], [2]]', 'list(hl, hd)', 'dict(hd)', 'hd | items | sorted', 'enumerate(ht)', 'rand(hl)', 'shuffle(hl)', 'reduce(hl, (x, y) => x)', 'x2']
-LRHS = ['hsl', 'hod["k"]', 'hdeep', '[hdd]', 'hwl', 'hw["rows"]', 'hl - [hl[1]]', 'hl', 'hl[0]', 'hd["k"]', 'a', 'b', '[hl[0]]', '[hl, hd]', 'values(hd)', 'items(hd)', 'enumerate(hl)', 'map(hl, v => v)', 'hid(hl)', 'ht', '[[1]]', 'sorted(hl, v => str(v))', 'reversed(hl)']
+LRHS = ['hhl', '[hhd]', 'hsl', 'hod["k"]', 'hdeep', '[hdd]', 'hwl', 'hw["rows"]', 'hl - [hl[1]]', 'hl', 'hl[0]', 'hd["k"]', 'a', 'b', '[hl[0]]', '[hl, hd]', 'values(hd)', 'items(hd)', 'enumerate(hl)', 'map(hl, v => v)', 'hid(hl)', 'ht', '[[1]]', 'sorted(hl, v => str(v))', 'reversed(hl)']
 KEY_L = ['0', '1', '-1', 'len(%s)', '2']
 KEY_D = ['"k"', '"new"', '"j"', '1', 'None']
 
